@@ -21,6 +21,8 @@ type locSpec struct {
 	Name     string
 	Hosts    []string
 	Prefixes []string
+	// BadRewrites: the location carries rewrite rules none of which is usable (end-to-end configurations only)
+	BadRewrites bool
 }
 
 func locClass(l locSpec) int {
@@ -137,7 +139,7 @@ func c14Check(r *hx.Run, locs []locSpec, names []string, host, uri string, ls *l
 }
 
 func c14(r *hx.Run) {
-	r.Rule = "exhaustive: every ordered tuple of <=3 location shapes (host subset of {h1,h2} x prefix subset of {/a,/a/b,/b}) x every subset of the location names x 15 queries ({h1,h2,h3} x {/a/x,/a/b/x,/b,/c,/}); sampled tuples of 4; random larger universes (prefix lengths 1..236, so that length differences inside and across classes are large); then end-to-end configs (every second one applied while four clients keep sending requests) through a real server (incl. percent-encoded request URIs, which are matched as sent, and requests whose X-Forwarded-Host/Forwarded headers name another configured host) with one origin per location (which origin saw the request), locations whose only prefix is the catch-all /, and locations whose upstream has no server alive (the request fails, it is not handed to a less specific location). Non-trivial = lookup with >=2 matching named locations of different classes or no match; distinct = (shape tuple, names, query)."
+	r.Rule = "exhaustive: every ordered tuple of <=3 location shapes (host subset of {h1,h2} x prefix subset of {/a,/a/b,/b}) x every subset of the location names x 15 queries ({h1,h2,h3} x {/a/x,/a/b/x,/b,/c,/}); sampled tuples of 4; random larger universes (prefix lengths 1..236, so that length differences inside and across classes are large; one location in four with a list of up to 16 prefixes that share stems and contain one another); then end-to-end configs (every second one applied while four clients keep sending requests) through a real server (incl. percent-encoded request URIs, which are matched as sent, and requests whose X-Forwarded-Host/Forwarded headers name another configured host) with one origin per location (which origin saw the request), locations whose only prefix is the catch-all /, locations whose rewrite rules are all unusable (they route all the same), and locations whose upstream has no server alive (the request fails, it is not handed to a less specific location). Non-trivial = lookup with >=2 matching named locations of different classes or no match; distinct = (shape tuple, names, query)."
 	r.Assume = []string{"ties inside one class are left to pike (any member accepted)"}
 	rnd := rand.New(rand.NewSource(r.Seed))
 	hostSets := subsets([]string{"h1", "h2"})
@@ -221,6 +223,7 @@ func c14(r *hx.Run) {
 		long1 := "/api/v1/internal/reports/export/monthly"
 		long2 := "/static/" + strings.Repeat("assets-and-bundles/", 12)
 		prefs := []string{"/", "/api", "/api/", "/api/v1", "/apix", "/static", "/s", "/API", long1, long2}
+		nested := []string{"/static/v2", "/static/v2/img", "/static/v2/img/icons", "/api/v1/a", "/api/v2", "/api/v10", "/s/1", "/s/10", "/s/2", "/apix/1/2", "/m", "/m/n", "/m/n/o", "/zz", "/zz/top", "/0"}
 		locs := make([]locSpec, nl)
 		opts := make([]location.Location, nl)
 		for j := range locs {
@@ -235,6 +238,17 @@ func c14(r *hx.Run) {
 					l.Prefixes = append(l.Prefixes, p)
 				}
 			}
+			if rnd.Intn(4) == 0 {
+				// a long list of prefixes that share stems and contain one another, in random order
+				for _, k := range rnd.Perm(len(nested)) {
+					if rnd.Intn(5) != 0 {
+						l.Prefixes = append(l.Prefixes, nested[k])
+					}
+				}
+				if len(l.Prefixes) > 8 {
+					r.Add("locations_with_more_than_8_prefixes", 1)
+				}
+			}
 			locs[j] = l
 			opts[j] = location.Location{Name: l.Name, Hosts: l.Hosts, Prefixes: l.Prefixes}
 		}
@@ -247,7 +261,7 @@ func c14(r *hx.Run) {
 		}
 		for q := 0; q < 6; q++ {
 			h := append(hosts, "zzz")[rnd.Intn(len(hosts)+1)]
-			u := []string{"/", "/api", "/api/v1/x?y=1", "/apix/1", "/static/a.js", "/s", "/other", "/API/x", long1 + "/2024.csv", long2 + "app.js", long1[:20]}[rnd.Intn(11)]
+			u := []string{"/", "/api", "/api/v1/x?y=1", "/apix/1", "/static/a.js", "/s", "/other", "/API/x", long1 + "/2024.csv", long2 + "app.js", long1[:20], "/static/v3/logo.png", "/staticfiles", "/static/v2/x.js", "/api/v3", "/api/v1/b", "/s/3", "/m/x", "/m/n/p", "/zz/u", "/1"}[rnd.Intn(21)]
 			c14Check(r, locs, names, h, u, ls)
 		}
 		r.Add("random_universe_configs", 1)
@@ -275,7 +289,12 @@ func c14EndToEnd(r *hx.Run, rnd *rand.Rand, shapes []locSpec) {
 			cfg.Upstreams = append(cfg.Upstreams, config.UpstreamConfig{Name: fmt.Sprintf("u%d", i), Servers: []config.UpstreamServerConfig{{Addr: a}}})
 		}
 		for i, l := range locs {
-			cfg.Locations = append(cfg.Locations, config.LocationConfig{Name: l.Name, Upstream: fmt.Sprintf("u%d", i), Hosts: l.Hosts, Prefixes: l.Prefixes})
+			lc := config.LocationConfig{Name: l.Name, Upstream: fmt.Sprintf("u%d", i), Hosts: l.Hosts, Prefixes: l.Prefixes}
+			if l.BadRewrites {
+				// three colon-separated parts; a pattern that is no regular expression
+				lc.Rewrites = []string{"/api/*:http://backend/$1", "^/a/(*:/$1"}
+			}
+			cfg.Locations = append(cfg.Locations, lc)
 		}
 		// a realistic bulk of other locations (with rewrite rules to compile) that no server lists
 		for d := 0; d < 40; d++ {
@@ -322,6 +341,10 @@ func c14EndToEnd(r *hx.Run, rnd *rand.Rand, shapes []locSpec) {
 			}
 			if i%3 == 2 && rnd.Intn(3) == 0 {
 				dead[j] = true
+			}
+			if rnd.Intn(4) == 0 {
+				locs[j].BadRewrites = true
+				r.Add("e2e_locations_with_unusable_rewrites", 1)
 			}
 			locs[j].Name = fmt.Sprintf("n%d", j)
 			if rnd.Intn(4) != 0 {
